@@ -35,4 +35,5 @@ ExperLaws == kind = "exper" =>
     /\ a.solved_count <= a.trials
     /\ a.solved <=> (a.solved_count > 0)
     /\ \A i \in DOMAIN exper : a.per_trial[i].solved => a.per_trial[i].winner[4] \in Divs
+    /\ ExperPermutationInvariant(exper)
 =============================================================================
